@@ -12,7 +12,7 @@ import re
 
 import common as C
 
-SRC_FILES = ['src/order.rs', 'src/shape.rs', 'src/index.rs', 'src/lib.rs', 'src/arithmetic.rs', 'src/iter/iter_mut.rs', 'src/swap.rs', 'src/iter.rs', 'src/construct.rs', 'src/eq.rs', 'src/convert.rs']
+SRC_FILES = ['src/order.rs', 'src/shape.rs', 'src/index.rs', 'src/lib.rs', 'src/arithmetic.rs', 'src/iter/iter_mut.rs', 'src/swap.rs', 'src/iter.rs', 'src/construct.rs', 'src/eq.rs', 'src/convert.rs', 'src/arithmetic/mul.rs']
 GEN_DIR = os.path.join(C.BUILD, 'gen')
 
 # which kernel functions each property's theorems rest on
@@ -46,13 +46,16 @@ OBLIGATIONS = {
     'C10': ['AxisIndex_from_index', 'AxisIndex_is_out_of_bounds', 'Matrix_major_stride', 'Matrix_minor_stride', 'Matrix_major', 'Matrix_minor',
             'Matrix_swap_major_axis_vectors', 'Matrix_swap_minor_axis_vectors', 'Matrix_swap_rows', 'Matrix_swap_cols'],
     'C11': ['Matrix_is_multiplication_like_operation_conformable', 'Matrix_ensure_multiplication_like_operation_conformable', 'Matrix_nrows', 'Matrix_ncols', 'AxisShape_nrows', 'AxisShape_ncols',
-            'Matrix_get_nth_major_axis_vector', 'Matrix_multiplication_like_operation', 'Matrix_set_order', 'Matrix_check_size', 'Shape_try_to_axis_shape'],
+            'Matrix_get_nth_major_axis_vector', 'Matrix_multiplication_like_operation', 'Matrix_set_order', 'Matrix_check_size', 'Shape_try_to_axis_shape',
+            'Free_dot_product', 'Matrix_multiply'],
     'C12': ['Matrix_is_elementwise_operation_conformable', 'Matrix_ensure_elementwise_operation_conformable', 'AxisIndex_swap', 'AxisIndex_from_flattened', 'AxisIndex_to_flattened',
             'Matrix_elementwise_operation', 'Matrix_elementwise_operation_consume_self', 'Matrix_elementwise_operation_assign'],
     'C18': ['Matrix_scalar_operation', 'Matrix_scalar_operation_consume_self', 'Matrix_scalar_operation_assign', 'Matrix_check_size'],
     'C13': ['AxisIndex_from_wrapping_index', 'AxisIndex_to_flattened', 'Matrix_is_empty', 'AxisShape_major', 'AxisShape_minor'],
     'C14': ['Matrix_major', 'Matrix_minor', 'Matrix_major_stride', 'Matrix_overwrite'],
-    'C15': ['Index_from_flattened', 'Index_to_flattened', 'AxisIndex_to_index', 'AxisIndex_from_flattened', 'AxisIndex_from_index'],
+    'C15': ['Index_from_flattened', 'Index_to_flattened', 'AxisIndex_to_index', 'AxisIndex_from_flattened', 'AxisIndex_from_index',
+            'Matrix_iter_elements', 'Matrix_iter_elements_mut', 'Matrix_into_iter_elements',
+            'Matrix_iter_elements_with_index', 'Matrix_iter_elements_mut_with_index', 'Matrix_into_iter_elements_with_index'],
     'C19': ['Shape_size', 'Shape_try_to_axis_shape', 'Shape_to_axis_shape_unchecked', 'Matrix_check_size', 'Index_from_flattened'] + CTORS + CONVS,
 }
 
